@@ -247,6 +247,11 @@ class Check:
         problems = []
         if self.harness_errors:
             problems.append("%d harness errors, e.g. %s" % (len(self.harness_errors), self.harness_errors[0].get("detail")))
+        if getattr(self, "max_unsupported", None) is not None and by.get("unsupported", 0) > self.max_unsupported:
+            # an instance the numpy model cannot execute is an ENCODING gap (e.g. a numpy function new to the kernel);
+            # where the unchanged tree has none, it must not disappear silently in the inconclusive budget
+            problems.append("%d unsupported instances (encoding gap; at most %d expected), e.g. %s" % (
+                by.get("unsupported", 0), self.max_unsupported, next((o.get("detail") for o in self.outcomes if o["status"] == "unsupported"), "")))
         if n_total and n_inc / max(1, n_total) > self.max_inconclusive_share:
             problems.append("inconclusive share %d/%d exceeds budget" % (n_inc, n_total))
         if self.stats.get("xcheck_disagree", 0):
